@@ -17,7 +17,7 @@ PROPS_ARR_ASSUME = []
 PROPS = {
     "C04": {
         "engine": "cells", "level": "exploration", "race": False,
-        "quick": {"runs": 1600, "budget_s": 120},
+        "quick": {"runs": 4000, "budget_s": 120},
         "thorough": {"runs": 400000, "budget_s": 1500},
         "rule": "one run = one seeded workload (model, 1-6 cells, parameter-set and input-block counts in {1, N, coprime with N, N+1}, 1-24 timesteps, Go/C-backed arrays, oversized output arrays, model-initialised or warmed-up states) executed as tasks under the seeded scheduler and compared bit-for-bit with fresh one-cell runs; non-trivial = at least 2 cells and at least one scheduling decision with 2 or more runnable tasks",
         "real": REAL_MODELS, "stub": STUB_NONE, "assumptions": SIM_ASSUME,
@@ -121,3 +121,12 @@ PROPS["C05"]["real"] = PROPS["C05"]["real"] + ["cmd/ow-sim, io (ow-sim phases)"]
 PROPS["C05"]["stub"] = ["HDF5 library (fakehdf5) in the ow-sim phases"]
 
 PROPS["C17"]["rule"] += "; in addition every run converts a seeded float64 view (plain, gapped, stepped, nested; with NaN/+Inf/-Inf cells) with JsonSafeArray for every shift dimension and compares nesting and values"
+
+# C03: the per-cell goroutines of a model run on C-backed arrays must be as race-free as on Go-backed
+# ones: a phase of the cells engine in the -race binary with every array C-backed
+PROPS["C03"]["also"] = [{"engine": "cells", "race": True, "runs_quick": 250, "runs_thorough": 30000, "env": {"VERIF_FORCE_C": "1"}},
+                        {"engine": "cells", "race": False, "runs_quick": 400, "runs_thorough": 60000, "env": {"VERIF_FORCE_C": "1"}}]
+PROPS["C03"]["rule"] += "; third part: the vectorised-Run workloads of C04 with every array (inputs, states, outputs, parameters) C-backed, under the seeded scheduler and in the -race binary"
+
+for _p in ("C04", "C05", "C14", "C07"):
+    PROPS[_p]["rule"] += "; in 20% of the runs the instrumented model kernels also yield before every statement (bounded to 1500 kernel-level scheduling points per run), so that cells/models interleave inside their kernels"
